@@ -52,6 +52,7 @@ type spec struct {
 	A64Table bool // emit the arm64 decode table
 	X86Table bool // emit the x86 decoding program and the decodeOp numbering
 	MethodCallers map[string][3]string // name -> (type's package suffix, type, method): functions of this package that call it
+	Skeletons []string // functions whose control skeleton is emitted
 }
 
 var specs = []spec{
@@ -75,6 +76,8 @@ var specs = []spec{
 		"baseMocker.applyByName":   {"FuncName", "Apply"},
 	}},
 	{Out: "Erro", Arch: "amd64", Pkg: "./erro", Erro: true},
+	{Out: "SigSkeleton", Arch: "amd64", Pkg: "./internal/patch", Skeletons: []string{"SignatureEquals"}},
+	{Out: "ArgSkeleton", Arch: "amd64", Pkg: "./arg", Skeletons: []string{"I2V"}},
 	{Out: "ArgPurity", Arch: "amd64", Pkg: "./arg", Pure: map[string][]string{
 		"arg_eval": {"*.Eval", "equal", "ExpandVariadic"},
 	}},
@@ -148,7 +151,7 @@ func runSpec(repo, out string, sp spec) result {
 	if len(sp.Shapes) > 0 {
 		sb.WriteString("From Goom Require Import Model.WriteTo.\n")
 	}
-	if len(sp.Orders) > 0 || sp.Erro || len(sp.Pure) > 0 || len(sp.Lits) > 0 || len(sp.Locks) > 0 || len(sp.MethodCallers) > 0 || sp.A64Table || sp.X86Table {
+	if len(sp.Orders) > 0 || sp.Erro || len(sp.Pure) > 0 || len(sp.Lits) > 0 || len(sp.Locks) > 0 || len(sp.MethodCallers) > 0 || sp.A64Table || sp.X86Table || len(sp.Skeletons) > 0 {
 		sb.WriteString("From Coq Require Import String.\nOpen Scope string_scope.\n")
 	}
 	sb.WriteString("Open Scope Z_scope.\n\n")
@@ -296,6 +299,15 @@ func runSpec(repo, out string, sp spec) result {
 			sb.WriteString(s)
 			res.OK = append(res.OK, n)
 		}
+	}
+	for _, fn := range sp.Skeletons {
+		s, err := trSkeleton(pkg, fn)
+		if err != nil {
+			res.Failed[fn] = err.Error()
+			continue
+		}
+		sb.WriteString(s)
+		res.OK = append(res.OK, fn)
 	}
 	if sp.X86Table {
 		s, err := trX86Table(pkg)
